@@ -347,7 +347,13 @@ fn parse_case(rep: &mut Report, rng: &mut Rng) {
                 refimpl::sentence::surrogate_case(rng)
             }
         }
-        4 => format!("{}{}", prefix(rng), refimpl::sentence::lookalike_case(rng)),
+        4 => {
+            if rng.chance(1, 3) {
+                refimpl::sentence::truncation_twin(&s, rng).unwrap_or(s)
+            } else {
+                format!("{}{}", prefix(rng), refimpl::sentence::lookalike_case(rng))
+            }
+        }
         _ => format!("{}\n{}", s, char_soup(rng, 6)),
     };
     rep.evaluations += 1;
